@@ -379,10 +379,13 @@ def run(item):
                 c.extra['case'] = dict(kind='conflict', n1d=n1d, coord=coord)
                 c.extra['sample'] = c.extra['case']
                 for npart, nth in acc:
-                    if npart >= 2:
+                    if npart >= 3:      # two stripes of the same parity exist: 0 and 2
+                        import fractions
                         c.events.append(dict(kind='race', what=f'n1d={n1d}, npartition={npart} is accepted (nthread={nth}) on an axis shorter than a TSC cloud',
-                                             key='race:other', model=dict(x1='1/8', x2='7/8', o=0, s1=0, s2=npart - (npart % 2 == 0) - 1 if npart > 2 else 0, row=0, nthread=nth),
+                                             key='race:other', model=dict(x1=str(fractions.Fraction(1, 2 * npart)), x2=str(fractions.Fraction(5, 2 * npart)), o=0, s1=0, s2=2, row=0, nthread=nth),
                                              info=dict(case=dict(kind='conflict', n1d=n1d, npartition=npart, coord=coord, nthread=nth))))
+                    else:
+                        c.stats.proved += 1
             r, res = common.run_paths(tiny)
             add(r)
             return tot
